@@ -213,6 +213,11 @@ def run(repo, tier) -> Result:
                     res.fail("R-EFFECT", finding("C19", "R-EFFECT", m, m.node, "accessor override mutates state", construct=f"{ci.name}.{nm}"))
     check_dispatch(res, repo)
     check_append_order("C19", res, repo)
+    # "identical results for every encoding": Candle objects reach the other managers as raw copies, which exist only if every
+    # conversion saves the raw values first (the dict / list encodings are built fresh per manager and never need them)
+    from ..manager_rules import check_conversion_typestate
+
+    check_conversion_typestate("C19", res, repo)
     res.universe = {"read_only_entry_points": n, "converters": len(CONVERTERS), "functions_in_call_graph": len(eff.cg.funcs), "functions_with_effects": sum(1 for v in eff.summary.values() if v)}
     res.rule("R-EFFECT", floor=55)
     res.rule("R-DISPATCH", floor=8)
